@@ -1,8 +1,9 @@
 /-
-Helper lemmas for C12 (`Model/Aead.lean`, `Crypto/Cbc.lean`).  Core Lean only.
+Helper lemmas for C12 (`Model/Aead.lean`, `Crypto/Cbc.lean`, `Crypto/KeyWrap.lean`).  Core Lean only.
 The property theorems themselves are listed in `Props/C12.lean`.
 -/
 import AskarModel.Model.Aead
+import AskarModel.Crypto.KeyWrap
 
 namespace Askar.Aead.Lemmas
 open Askar Askar.Aead Askar.Crypto
@@ -941,11 +942,601 @@ theorem kw_empty_unwraps_under_every_key (C : BlockCipher) (key : Bytes) : kwDec
   have e2 : List.drop 8 kwIv = [] := by decide
   rw [if_pos e1, e2]
 
-/- OPEN (not attempted, outside the budget):
-   * `kw_wrap_unwrap` : kwDecrypt C key c [] [] = .ok p → kwEncrypt C key p [] [] = .ok (c, c.length)
-     (the converse round trip; needs `enc (dec b) = b`, which is not among the assumed laws).
-   * a refinement theorem tying `Crypto.KeyWrap.wrapWith` (index form of RFC 3394 §2.2.1, ByteArray) to the model's
-     `kwWrapPasses` (the Rust's chunk loop): today both are only compared by execution (bit-for-bit agreement of the
-     driver, which runs the model's loop over the AES spec, with the RFC vectors and with the implementation). -/
+/-! ### AES key wrap: the model's chunk loops compute RFC 3394 §2.2 (`Crypto.KeyWrap`, index form) -/
+
+section KeyWrapRefinement
+open Askar.Crypto.KeyWrap
+
+/-! #### `ByteArray` ↔ `List UInt8` -/
+
+theorem ba_toList_loop (b : ByteArray) (i : Nat) (r : List UInt8) :
+    ByteArray.toList.loop b i r = r.reverse ++ b.data.toList.drop i := by
+  fun_induction ByteArray.toList.loop b i r with
+  | case1 i r h ih =>
+    rw [ih]
+    have h' : i < b.data.toList.length := by simpa using h
+    rw [List.drop_eq_getElem_cons h']
+    have : b.get! i = b.data.toList[i] := by
+      simp only [ByteArray.get!]
+      have h2 : i < b.data.size := by simpa using h
+      rw [getElem!_pos b.data i h2]; simp
+    simp [this]
+  | case2 i r h =>
+    have : b.data.toList.length ≤ i := by simpa using h
+    simp [List.drop_eq_nil_of_le this]
+
+theorem ba_toList (b : ByteArray) : b.toList = b.data.toList := by
+  simp [ByteArray.toList, ba_toList_loop]
+
+theorem ba_toList_append (a b : ByteArray) : (a ++ b).toList = a.toList ++ b.toList := by
+  simp [ba_toList]
+
+theorem ba_toList_extract (b : ByteArray) (s e : Nat) : (b.extract s e).toList = (b.toList.drop s).take (e - s) := by
+  simp [ba_toList, List.extract]
+
+theorem ba_toList_ofList (l : List UInt8) : l.toByteArray.toList = l := by
+  simp [ba_toList]
+
+theorem ba_size (b : ByteArray) : b.size = b.toList.length := by
+  simp [ba_toList]
+
+theorem ba_get! (b : ByteArray) (i : Nat) : b.get! i = b.toList[i]! := by
+  obtain ⟨⟨l⟩⟩ := b
+  simp [ByteArray.get!, ba_toList]
+
+theorem ba_toList_empty : ByteArray.empty.toList = [] := by simp [ba_toList]
+
+theorem ba_toList_default : (default : ByteArray).toList = [] := by
+  show ByteArray.empty.toList = []
+  exact ba_toList_empty
+
+theorem xor8_list (la lb : List UInt8) (ha : la.length = 8) (hb : lb.length = 8) :
+    (List.range 8).map (fun i => la[i]! ^^^ lb[i]!) = Cbc.xor la lb := by
+  apply List.ext_getElem
+  · simp [Cbc.xor, ha, hb]
+  · intro i h1 h2
+    have hi : i < 8 := by simpa using h1
+    simp only [Cbc.xor, List.getElem_map, List.getElem_range, List.getElem_zipWith]
+    rw [getElem!_pos la i (by omega), getElem!_pos lb i (by omega)]
+
+theorem xor8_toList (a b : ByteArray) (ha : a.toList.length = 8) (hb : b.toList.length = 8) :
+    (xor8 a b).toList = Cbc.xor a.toList b.toList := by
+  simp only [xor8, ba_toList_ofList, ba_get!]
+  exact xor8_list _ _ ha hb
+
+theorem be64_toList (t : Nat) : (be64 t).toList = Bytes.be64 t := by
+  simp only [be64, ba_toList_ofList, Bytes.be64, Bytes.be32]
+  simp [List.range, List.range.loop]
+  refine ⟨?_, ?_, ?_, ?_, ?_, ?_⟩ <;> congr 1 <;> omega
+
+/-! #### the index form on lists, and its equality with the model's recursion (no law needed) -/
+
+/-- RFC 3394 §2.2.1 step 2, one (j, i) iteration, on lists: `st = (A, R)` -/
+def ixWrapStep (enc : Bytes → Bytes) (n j : Nat) (st : Bytes × List Bytes) (i : Nat) : Bytes × List Bytes :=
+  let b := enc (st.1 ++ st.2[i - 1]!)
+  (Cbc.xor (b.take 8) (Bytes.be64 (n * j + i)), st.2.set (i - 1) (b.drop 8))
+
+theorem ixWrap_pass (enc : Bytes → Bytes) (n j : Nat) : ∀ (cs pre : List Bytes) (iv : Bytes),
+    (List.range' (pre.length + 1) cs.length).foldl (ixWrapStep enc n j) (iv, pre ++ cs) =
+      ((kwWrapPass enc (n * j) iv cs pre.length).1, pre ++ (kwWrapPass enc (n * j) iv cs pre.length).2)
+  | [], pre, iv => by simp [kwWrapPass]
+  | c :: cs, pre, iv => by
+    have ih := ixWrap_pass enc n j cs (pre ++ [(enc (iv ++ c)).drop 8])
+      (Cbc.xor ((enc (iv ++ c)).take 8) (Bytes.be64 (n * j + (pre.length + 1))))
+    simp only [List.length_append, List.length_cons, List.length_nil, List.append_assoc, List.singleton_append] at ih
+    simp only [List.length_cons, List.range'_succ, List.foldl_cons, kwWrapPass, kwWrapStep]
+    have e1 : ixWrapStep enc n j (iv, pre ++ c :: cs) (pre.length + 1) =
+        (Cbc.xor ((enc (iv ++ c)).take 8) (Bytes.be64 (n * j + (pre.length + 1))), pre ++ (enc (iv ++ c)).drop 8 :: cs) := by
+      simp [ixWrapStep]
+    rw [e1, ih, Nat.add_assoc]
+
+theorem ixWrap_passes (enc : Bytes → Bytes) (n : Nat) : ∀ (k j : Nat) (iv : Bytes) (cs : List Bytes), cs.length = n →
+    (List.range' j k).foldl (fun st j => (List.range' 1 n).foldl (ixWrapStep enc n j) st) (iv, cs) =
+      kwWrapPasses enc n k j iv cs
+  | 0, j, iv, cs, _ => by simp [kwWrapPasses]
+  | k + 1, j, iv, cs, h => by
+    have hp := ixWrap_pass enc n j cs [] iv
+    simp only [List.length_nil, Nat.zero_add, List.nil_append, h] at hp
+    simp only [List.range'_succ, List.foldl_cons, kwWrapPasses, hp]
+    exact ixWrap_passes enc n k (j + 1) _ _ (by rw [Lemmas.kwWrapPass_length, h])
+
+/-- RFC 3394 §2.2.2 step 2, one (j, i) iteration, on lists -/
+def ixUnwrapStep (dec : Bytes → Bytes) (n j : Nat) (st : Bytes × List Bytes) (i : Nat) : Bytes × List Bytes :=
+  let b := dec (Cbc.xor st.1 (Bytes.be64 (n * j + i)) ++ st.2[i - 1]!)
+  (b.take 8, st.2.set (i - 1) (b.drop 8))
+
+theorem ixUnwrap_pass (dec : Bytes → Bytes) (n j : Nat) : ∀ (cs pre : List Bytes) (iv : Bytes),
+    (List.range' (pre.length + 1) cs.length).foldr (fun i st => ixUnwrapStep dec n j st i) (iv, pre ++ cs) =
+      ((kwUnwrapPass dec (n * j) iv cs pre.length).1, pre ++ (kwUnwrapPass dec (n * j) iv cs pre.length).2)
+  | [], pre, iv => by simp [kwUnwrapPass]
+  | c :: cs, pre, iv => by
+    have ih := ixUnwrap_pass dec n j cs (pre ++ [c]) iv
+    simp only [List.length_append, List.length_cons, List.length_nil, List.append_assoc, List.singleton_append] at ih
+    simp only [List.length_cons, List.range'_succ, List.foldr_cons, kwUnwrapPass, kwUnwrapStep, ih]
+    simp [ixUnwrapStep, Nat.add_assoc]
+
+theorem kwUnwrapPass_length (dec : Bytes → Bytes) (base : Nat) :
+    ∀ (cs : List Bytes) (iv : Bytes) (i : Nat), (kwUnwrapPass dec base iv cs i).2.length = cs.length
+  | [], _, _ => by simp [kwUnwrapPass]
+  | c :: cs, iv, i => by simp [kwUnwrapPass, kwUnwrapPass_length dec base cs]
+
+theorem kwUnwrapPasses_length (dec : Bytes → Bytes) (n : Nat) :
+    ∀ (k j : Nat) (iv : Bytes) (cs : List Bytes), (kwUnwrapPasses dec n k j iv cs).2.length = cs.length
+  | 0, _, _, _ => by simp [kwUnwrapPasses]
+  | k + 1, j, iv, cs => by
+    simp only [kwUnwrapPasses]; rw [kwUnwrapPass_length, kwUnwrapPasses_length dec n k]
+
+theorem ixUnwrap_passes (dec : Bytes → Bytes) (n : Nat) : ∀ (k j : Nat) (iv : Bytes) (cs : List Bytes), cs.length = n →
+    (List.range' j k).foldr (fun j st => (List.range' 1 n).foldr (fun i st => ixUnwrapStep dec n j st i) st) (iv, cs) =
+      kwUnwrapPasses dec n k j iv cs
+  | 0, j, iv, cs, _ => by simp [kwUnwrapPasses]
+  | k + 1, j, iv, cs, h => by
+    simp only [List.range'_succ, List.foldr_cons, kwUnwrapPasses]
+    rw [ixUnwrap_passes dec n k (j + 1) iv cs h]
+    have hl := kwUnwrapPasses_length dec n k (j + 1) iv cs
+    have hp := ixUnwrap_pass dec n j (kwUnwrapPasses dec n k (j + 1) iv cs).2 [] (kwUnwrapPasses dec n k (j + 1) iv cs).1
+    simp only [List.length_nil, Nat.zero_add, List.nil_append, hl, h] at hp
+    exact hp
+
+theorem range'_rev_map (n : Nat) : (List.range' 0 n).map (n - ·) = (List.range' 1 n).reverse := by
+  apply List.ext_getElem
+  · simp
+  · intro i h1 h2
+    simp at h1
+    simp [List.getElem_reverse, List.getElem_range']
+    omega
+
+theorem foldl_down (α : Type) (f : α → Nat → α) (st : α) (n : Nat) :
+    (List.range' 0 n).foldl (fun st ii => f st (n - ii)) st = (List.range' 1 n).foldr (fun i st => f st i) st := by
+  rw [← List.foldl_map (f := (n - ·)) (g := f), range'_rev_map, List.foldl_reverse]
+
+/-! #### the specification's loops as folds, and their list view -/
+
+def wrapStepBA (ciph : ByteArray → ByteArray) (n j : Nat) (st : ByteArray × Array ByteArray) (i : Nat) :
+    ByteArray × Array ByteArray :=
+  (xor8 ((ciph (st.1 ++ st.2[i - 1]!)).extract 0 8) (be64 (n * j + i)),
+    st.2.set! (i - 1) ((ciph (st.1 ++ st.2[i - 1]!)).extract 8 16))
+
+def unwrapStepBA (inv : ByteArray → ByteArray) (n j : Nat) (st : ByteArray × Array ByteArray) (i : Nat) :
+    ByteArray × Array ByteArray :=
+  ((inv (xor8 st.1 (be64 (n * j + i)) ++ st.2[i - 1]!)).extract 0 8,
+    st.2.set! (i - 1) ((inv (xor8 st.1 (be64 (n * j + i)) ++ st.2[i - 1]!)).extract 8 16))
+
+/-- the list view of the specification's state `(A, R)` -/
+def absBA (st : ByteArray × Array ByteArray) : Bytes × List Bytes := (st.1.toList, st.2.toList.map (·.toList))
+
+/-- `A` is one 64-bit block, `R` is `n` 64-bit blocks -/
+def Blocks (n : Nat) (s : Bytes × List Bytes) : Prop := s.1.length = 8 ∧ s.2.length = n ∧ ∀ c ∈ s.2, c.length = 8
+
+theorem abs_get (r : Array ByteArray) (k : Nat) (h : k < r.size) :
+    r[k]!.toList = (r.toList.map (·.toList))[k]! := by
+  have h' : k < (r.toList.map (·.toList)).length := by simpa using h
+  rw [getElem!_pos r k h, getElem!_pos (r.toList.map (·.toList)) k h']
+  simp
+
+theorem wrapStepBA_abs (ciph : ByteArray → ByteArray) (enc : Bytes → Bytes) (hc : ∀ b, (ciph b).toList = enc b.toList)
+    (hlen : ∀ b, b.length = 16 → (enc b).length = 16) (n j : Nat) (st : ByteArray × Array ByteArray) (i : Nat)
+    (hi : 1 ≤ i ∧ i ≤ n) (hb : Blocks n (absBA st)) :
+    absBA (wrapStepBA ciph n j st i) = ixWrapStep enc n j (absBA st) i ∧ Blocks n (ixWrapStep enc n j (absBA st) i) := by
+  obtain ⟨h1, h2, h3⟩ := hb
+  simp only [absBA] at h1 h2 h3
+  have hsz : i - 1 < st.2.size := by simp at h2; omega
+  have hk : i - 1 < (st.2.toList.map (·.toList)).length := by rw [h2]; omega
+  have hc8 : ((st.2.toList.map (·.toList))[i - 1]!).length = 8 := by
+    rw [getElem!_pos (st.2.toList.map (·.toList)) (i - 1) hk]; exact h3 _ (List.getElem_mem hk)
+  have e1 : (ciph (st.1 ++ st.2[i - 1]!)).toList = enc (st.1.toList ++ (st.2.toList.map (·.toList))[i - 1]!) := by
+    rw [hc, ba_toList_append, abs_get _ _ hsz]
+  generalize hcd : (st.2.toList.map (·.toList))[i - 1]! = c at hc8 e1
+  have hbl : (enc (st.1.toList ++ c)).length = 16 := hlen _ (by rw [List.length_append, h1, hc8])
+  generalize hbd : enc (st.1.toList ++ c) = blk at e1 hbl
+  have e2 : ((ciph (st.1 ++ st.2[i - 1]!)).extract 0 8).toList = blk.take 8 := by
+    rw [ba_toList_extract, e1]; simp
+  have e3 : ((ciph (st.1 ++ st.2[i - 1]!)).extract 8 16).toList = blk.drop 8 := by
+    rw [ba_toList_extract, e1]
+    exact List.take_of_length_le (by simp [hbl])
+  have hstep : absBA (wrapStepBA ciph n j st i) = ixWrapStep enc n j (absBA st) i := by
+    simp only [absBA, wrapStepBA, ixWrapStep, Array.set!_eq_setIfInBounds, Array.toList_setIfInBounds, List.map_set, e3,
+      hcd, hbd]
+    rw [xor8_toList _ _ (by rw [e2]; simp [hbl]) (by rw [be64_toList]; exact Lemmas.be64_length _), e2, be64_toList]
+  refine ⟨hstep, ?_, ?_, ?_⟩
+  · simp only [ixWrapStep, absBA, hcd, hbd, Lemmas.xor_length, Lemmas.be64_length, List.length_take, hbl]; rfl
+  · simp only [ixWrapStep, absBA, List.length_set]; exact h2
+  · intro c' hcm
+    simp only [ixWrapStep, absBA, hcd, hbd] at hcm
+    rcases List.mem_or_eq_of_mem_set hcm with hcm | rfl
+    · exact h3 c' hcm
+    · simp [hbl]
+
+theorem unwrapStepBA_abs (inv : ByteArray → ByteArray) (dec : Bytes → Bytes) (hc : ∀ b, (inv b).toList = dec b.toList)
+    (hlen : ∀ b, b.length = 16 → (dec b).length = 16) (n j : Nat) (st : ByteArray × Array ByteArray) (i : Nat)
+    (hi : 1 ≤ i ∧ i ≤ n) (hb : Blocks n (absBA st)) :
+    absBA (unwrapStepBA inv n j st i) = ixUnwrapStep dec n j (absBA st) i ∧ Blocks n (ixUnwrapStep dec n j (absBA st) i) := by
+  obtain ⟨h1, h2, h3⟩ := hb
+  simp only [absBA] at h1 h2 h3
+  have hsz : i - 1 < st.2.size := by simp at h2; omega
+  have hk : i - 1 < (st.2.toList.map (·.toList)).length := by rw [h2]; omega
+  have hc8 : ((st.2.toList.map (·.toList))[i - 1]!).length = 8 := by
+    rw [getElem!_pos (st.2.toList.map (·.toList)) (i - 1) hk]; exact h3 _ (List.getElem_mem hk)
+  have hx : (xor8 st.1 (be64 (n * j + i))).toList = Cbc.xor st.1.toList (Bytes.be64 (n * j + i)) := by
+    rw [xor8_toList _ _ h1 (by rw [be64_toList]; exact Lemmas.be64_length _), be64_toList]
+  have hxl : (Cbc.xor st.1.toList (Bytes.be64 (n * j + i))).length = 8 := by
+    rw [Lemmas.xor_length, h1, Lemmas.be64_length]; rfl
+  have e1 : (inv (xor8 st.1 (be64 (n * j + i)) ++ st.2[i - 1]!)).toList =
+      dec (Cbc.xor st.1.toList (Bytes.be64 (n * j + i)) ++ (st.2.toList.map (·.toList))[i - 1]!) := by
+    rw [hc, ba_toList_append, abs_get _ _ hsz, hx]
+  generalize hcd : (st.2.toList.map (·.toList))[i - 1]! = c at hc8 e1
+  have hbl : (dec (Cbc.xor st.1.toList (Bytes.be64 (n * j + i)) ++ c)).length = 16 :=
+    hlen _ (by rw [List.length_append, hxl, hc8])
+  generalize hbd : dec (Cbc.xor st.1.toList (Bytes.be64 (n * j + i)) ++ c) = blk at e1 hbl
+  have e2 : ((inv (xor8 st.1 (be64 (n * j + i)) ++ st.2[i - 1]!)).extract 0 8).toList = blk.take 8 := by
+    rw [ba_toList_extract, e1]; simp
+  have e3 : ((inv (xor8 st.1 (be64 (n * j + i)) ++ st.2[i - 1]!)).extract 8 16).toList = blk.drop 8 := by
+    rw [ba_toList_extract, e1]
+    exact List.take_of_length_le (by simp [hbl])
+  have hstep : absBA (unwrapStepBA inv n j st i) = ixUnwrapStep dec n j (absBA st) i := by
+    simp only [absBA, unwrapStepBA, ixUnwrapStep, Array.set!_eq_setIfInBounds, Array.toList_setIfInBounds, List.map_set, e2, e3,
+      hcd, hbd]
+  refine ⟨hstep, ?_, ?_, ?_⟩
+  · simp only [ixUnwrapStep, absBA, hcd, hbd, List.length_take, hbl]; rfl
+  · simp only [ixUnwrapStep, absBA, List.length_set]; exact h2
+  · intro c' hcm
+    simp only [ixUnwrapStep, absBA, hcd, hbd] at hcm
+    rcases List.mem_or_eq_of_mem_set hcm with hcm | rfl
+    · exact h3 c' hcm
+    · simp [hbl]
+
+/-- data refinement of a loop: if every step commutes with the abstraction on good states and keeps them good,
+    so does the fold -/
+theorem foldl_abs {σ τ ι : Type} (abs : σ → τ) (P : τ → Prop) (f : σ → ι → σ) (g : τ → ι → τ) :
+    ∀ (is : List ι) (st : σ), (∀ i ∈ is, ∀ st, P (abs st) → abs (f st i) = g (abs st) i ∧ P (g (abs st) i)) → P (abs st) →
+      abs (is.foldl f st) = is.foldl g (abs st) ∧ P (is.foldl g (abs st))
+  | [], st, _, h => ⟨rfl, h⟩
+  | i :: is, st, hs, h => by
+    obtain ⟨e, p⟩ := hs i (List.mem_cons_self ..) st h
+    have := foldl_abs abs P f g is (f st i) (fun k hk => hs k (List.mem_cons_of_mem _ hk)) (e ▸ p)
+    simp only [List.foldl_cons]
+    rw [e] at this
+    exact this
+
+theorem wrapWith_eq_fold (ciph : ByteArray → ByteArray) (iv plain : ByteArray) :
+    wrapWith ciph iv plain =
+      (let st := (List.range' 0 6).foldl (fun st j => (List.range' 1 (plain.size / 8)).foldl (wrapStepBA ciph (plain.size / 8) j) st)
+        (iv, (Array.range (plain.size / 8)).map fun i => plain.extract (8 * i) (8 * i + 8))
+       st.2.foldl (· ++ ·) st.1) := by
+  unfold wrapWith
+  simp only [Id.run, Std.Legacy.Range.forIn_eq_forIn_range', Std.Legacy.Range.size]
+  simp [List.forIn_pure_yield_eq_foldl]
+  rfl
+
+theorem unwrapRaw_eq_fold (inv : ByteArray → ByteArray) (c : ByteArray) :
+    unwrapRaw inv c =
+      (let st := (List.range' 0 6).foldl (fun st jj => (List.range' 0 (c.size / 8 - 1)).foldl
+          (fun st ii => unwrapStepBA inv (c.size / 8 - 1) (5 - jj) st (c.size / 8 - 1 - ii)) st)
+        (c.extract 0 8, (Array.range (c.size / 8 - 1)).map fun i => c.extract (8 * (i + 1)) (8 * (i + 1) + 8))
+       (st.1, st.2.foldl (· ++ ·) ByteArray.empty)) := by
+  unfold unwrapRaw
+  simp only [Id.run, Std.Legacy.Range.forIn_eq_forIn_range', Std.Legacy.Range.size]
+  simp [List.forIn_pure_yield_eq_foldl]
+  rfl
+
+theorem chunksN_eq_map (l : Bytes) : ∀ (k : Nat) (off : Nat),
+    (List.range k).map (fun i => ((l.drop (8 * (i + off))).take 8)) = Cbc.chunksN 8 k (l.drop (8 * off))
+  | 0, _ => by simp [Cbc.chunksN]
+  | k + 1, off => by
+    rw [List.range_succ_eq_map, List.map_cons, List.map_map, Cbc.chunksN, List.drop_drop]
+    have := chunksN_eq_map l k (off + 1)
+    rw [Nat.mul_add, Nat.mul_one] at this
+    rw [← this]
+    simp only [Nat.zero_add, List.cons.injEq, true_and]
+    apply List.map_congr_left
+    intro i _
+    simp only [Function.comp, Nat.succ_eq_add_one]
+    congr 2; omega
+
+theorem foldl_append_toList : ∀ (l : List ByteArray) (a : ByteArray),
+    (l.foldl (· ++ ·) a).toList = a.toList ++ (l.map (·.toList)).flatten
+  | [], a => by simp
+  | b :: l, a => by simp [foldl_append_toList l, ba_toList_append]
+
+theorem absBA_init (a c : ByteArray) (n off : Nat) :
+    absBA (a, (Array.range n).map fun i => c.extract (8 * (i + off)) (8 * (i + off) + 8)) =
+      (a.toList, Cbc.chunksN 8 n (c.toList.drop (8 * off))) := by
+  simp only [absBA, Array.toList_map, Array.toList_range, List.map_map]
+  rw [← chunksN_eq_map]
+  congr 1
+  apply List.map_congr_left
+  intro i _
+  simp [ba_toList_extract]
+
+theorem blocks_chunks (a l : Bytes) (ha : a.length = 8) : Blocks (l.length / 8) (a, Cbc.chunks 8 l) :=
+  ⟨ha, chunks_length 8 l, chunks_all_length 8 l⟩
+
+/-- **RFC 3394 §2.2.1 = the wrap loop of the model**, for every block function that maps 128-bit blocks to 128-bit
+    blocks, every 64-bit initial value and EVERY input (n = 0, 1 included; trailing bytes beyond the last complete
+    64-bit block are ignored by both sides). -/
+theorem wrapWith_refines (ciph : ByteArray → ByteArray) (enc : Bytes → Bytes) (hc : ∀ b, (ciph b).toList = enc b.toList)
+    (hlen : ∀ b, b.length = 16 → (enc b).length = 16) (iv plain : ByteArray) (hiv : iv.size = 8) :
+    (wrapWith ciph iv plain).toList =
+      (kwWrapPasses enc (plain.size / 8) 6 0 iv.toList (Cbc.chunks 8 plain.toList)).1 ++
+      (kwWrapPasses enc (plain.size / 8) 6 0 iv.toList (Cbc.chunks 8 plain.toList)).2.flatten := by
+  rw [wrapWith_eq_fold]
+  have hinit := absBA_init iv plain (plain.size / 8) 0
+  simp only [Nat.add_zero, Nat.mul_zero, List.drop_zero] at hinit
+  have hn : plain.size / 8 = plain.toList.length / 8 := by rw [ba_size]
+  have hch : Cbc.chunksN 8 (plain.size / 8) plain.toList = Cbc.chunks 8 plain.toList := by rw [Cbc.chunks, hn]
+  rw [hch] at hinit
+  have hB : Blocks (plain.size / 8) (absBA (iv, (Array.range (plain.size / 8)).map fun i => plain.extract (8 * i) (8 * i + 8))) := by
+    rw [hinit, hn]; exact blocks_chunks _ _ (by rw [← ba_size]; exact hiv)
+  obtain ⟨e, p⟩ := foldl_abs absBA (Blocks (plain.size / 8))
+    (fun st j => (List.range' 1 (plain.size / 8)).foldl (wrapStepBA ciph (plain.size / 8) j) st)
+    (fun st j => (List.range' 1 (plain.size / 8)).foldl (ixWrapStep enc (plain.size / 8) j) st) (List.range' 0 6) _
+    (fun j _ st hP => foldl_abs absBA (Blocks (plain.size / 8)) (wrapStepBA ciph (plain.size / 8) j) (ixWrapStep enc (plain.size / 8) j)
+      (List.range' 1 (plain.size / 8)) st
+      (fun i hi st hP => wrapStepBA_abs ciph enc hc hlen _ j st i (by simp [List.mem_range'_1] at hi; omega) hP) hP) hB
+  rw [hinit, ixWrap_passes enc _ 6 0 _ _ (by rw [hn]; exact chunks_length 8 _)] at e
+  simp only
+  rw [← Array.foldl_toList, foldl_append_toList, ← e]
+  rfl
+
+/-- **RFC 3394 §2.2.2 steps 1–2 = the unwrap loop of the model**, for every input of at least one 64-bit block -/
+theorem unwrapRaw_refines (inv : ByteArray → ByteArray) (dec : Bytes → Bytes) (hc : ∀ b, (inv b).toList = dec b.toList)
+    (hlen : ∀ b, b.length = 16 → (dec b).length = 16) (c : ByteArray) (h8 : 8 ≤ c.size) :
+    (unwrapRaw inv c).1.toList =
+      (kwUnwrapPasses dec (c.size / 8 - 1) 6 0 (c.toList.take 8) (Cbc.chunks 8 (c.toList.drop 8))).1 ∧
+    (unwrapRaw inv c).2.toList =
+      (kwUnwrapPasses dec (c.size / 8 - 1) 6 0 (c.toList.take 8) (Cbc.chunks 8 (c.toList.drop 8))).2.flatten := by
+  rw [unwrapRaw_eq_fold]
+  have hinit := absBA_init (c.extract 0 8) c (c.size / 8 - 1) 1
+  have hn : c.size / 8 - 1 = (c.toList.drop 8).length / 8 := by rw [List.length_drop, ← ba_size]; omega
+  have ha : (c.extract 0 8).toList = c.toList.take 8 := by rw [ba_toList_extract]; simp
+  rw [ha] at hinit
+  simp only [Nat.mul_one] at hinit
+  have hch : Cbc.chunksN 8 (c.size / 8 - 1) (c.toList.drop 8) = Cbc.chunks 8 (c.toList.drop 8) := by
+    rw [Cbc.chunks, hn]
+  rw [hch] at hinit
+  have hB : Blocks (c.size / 8 - 1) (absBA (c.extract 0 8, (Array.range (c.size / 8 - 1)).map fun i => c.extract (8 * (i + 1)) (8 * (i + 1) + 8))) := by
+    rw [hinit, hn]; exact blocks_chunks _ _ (by rw [List.length_take, ← ba_size]; omega)
+  obtain ⟨e, p⟩ := foldl_abs absBA (Blocks (c.size / 8 - 1))
+    (fun st jj => (List.range' 0 (c.size / 8 - 1)).foldl
+      (fun st ii => unwrapStepBA inv (c.size / 8 - 1) (5 - jj) st (c.size / 8 - 1 - ii)) st)
+    (fun st jj => (List.range' 0 (c.size / 8 - 1)).foldl
+      (fun st ii => ixUnwrapStep dec (c.size / 8 - 1) (5 - jj) st (c.size / 8 - 1 - ii)) st) (List.range' 0 6) _
+    (fun jj _ st hP => foldl_abs absBA (Blocks (c.size / 8 - 1))
+      (fun st ii => unwrapStepBA inv (c.size / 8 - 1) (5 - jj) st (c.size / 8 - 1 - ii))
+      (fun st ii => ixUnwrapStep dec (c.size / 8 - 1) (5 - jj) st (c.size / 8 - 1 - ii))
+      (List.range' 0 (c.size / 8 - 1)) st
+      (fun ii hi st hP => unwrapStepBA_abs inv dec hc hlen _ (5 - jj) st _ (by simp [List.mem_range'_1] at hi; omega) hP) hP) hB
+  rw [hinit] at e
+  have hfold : (List.range' 0 6).foldl (fun st jj => (List.range' 0 (c.size / 8 - 1)).foldl
+      (fun st ii => ixUnwrapStep dec (c.size / 8 - 1) (5 - jj) st (c.size / 8 - 1 - ii)) st)
+      (c.toList.take 8, Cbc.chunks 8 (c.toList.drop 8)) =
+      kwUnwrapPasses dec (c.size / 8 - 1) 6 0 (c.toList.take 8) (Cbc.chunks 8 (c.toList.drop 8)) := by
+    rw [← ixUnwrap_passes dec _ 6 0 _ _ (by rw [hn]; exact chunks_length 8 _)]
+    simp only [foldl_down]
+    rfl
+  rw [hfold] at e
+  simp only
+  rw [← Array.foldl_toList, foldl_append_toList, ← e]
+  exact ⟨rfl, by simp [absBA]⟩
+
+/-- §2.2.2 with the integrity check (step 3) -/
+theorem unwrapWith_refines (inv : ByteArray → ByteArray) (dec : Bytes → Bytes) (hc : ∀ b, (inv b).toList = dec b.toList)
+    (hlen : ∀ b, b.length = 16 → (dec b).length = 16) (iv c : ByteArray) :
+    (unwrapWith inv iv c).map (·.toList) =
+      if c.size % 8 ≠ 0 ∨ c.size < 8 then none
+      else if (kwUnwrapPasses dec (c.size / 8 - 1) 6 0 (c.toList.take 8) (Cbc.chunks 8 (c.toList.drop 8))).1 = iv.toList
+        then some (kwUnwrapPasses dec (c.size / 8 - 1) 6 0 (c.toList.take 8) (Cbc.chunks 8 (c.toList.drop 8))).2.flatten
+        else none := by
+  unfold unwrapWith
+  by_cases h : c.size % 8 ≠ 0 ∨ c.size < 8
+  · have : (c.size % 8 != 0 || decide (c.size < 8)) = true := by
+      rcases h with h | h <;> simp [h]
+    simp [this, h]
+  · have h8 : 8 ≤ c.size := by omega
+    have : (c.size % 8 != 0 || decide (c.size < 8)) = false := by
+      simp only [not_or, Nat.not_lt, ne_eq, Decidable.not_not] at h
+      simp [h.1]; omega
+    obtain ⟨e1, e2⟩ := unwrapRaw_refines inv dec hc hlen c h8
+    simp only [this, Bool.false_eq_true, if_false, h, beq_iff_eq, e1]
+    split <;> simp [e2]
+
+/-- normal form of `encrypt_in_place` on accepted input -/
+theorem kwEncrypt_eq (C : BlockCipher) (hC : C.Lawful) (key p : Bytes) (hp : p.length % 8 = 0) :
+    kwEncrypt C key p [] [] =
+      .ok ((kwWrapPasses (C.enc key) (p.length / 8) 6 0 kwIv (Cbc.chunks 8 p)).1 ++
+           (kwWrapPasses (C.enc key) (p.length / 8) 6 0 kwIv (Cbc.chunks 8 p)).2.flatten, p.length + 8) := by
+  have hn : 8 * (p.length / 8) = p.length := by have := Nat.div_add_mod p.length 8; omega
+  obtain ⟨r1, r2, r3, r4⟩ := kw_passes_inv (C.enc key) (C.dec key) (hC.enc_len key) (hC.dec_enc key) (p.length / 8) 6 0
+    kwIv (Cbc.chunks 8 p) kwIv_length (chunks_all_length 8 p)
+  generalize hr : kwWrapPasses (C.enc key) (p.length / 8) 6 0 kwIv (Cbc.chunks 8 p) = r at r1 r2 r3 r4
+  have hfl : r.2.flatten.length = p.length := by
+    rw [flatten_length_of_all 8 _ r3, r4, chunks_length, hn]
+  unfold kwEncrypt
+  have e1 : 8 ≤ (zeros 8 ++ p).length := by simp [zeros]
+  have e2 : (zeros 8 ++ p).drop 8 = p := List.drop_left' (by simp [zeros])
+  have e3 : (zeros 8 ++ p).take 8 = zeros 8 := List.take_left' (by simp [zeros])
+  simp only [List.isEmpty_nil, Bool.not_true, Bool.false_eq_true, if_false, hp, ne_eq, not_true_eq_false, sliceFrom, e1, if_true,
+    bind_ok, e2, e3, hn, List.drop_length, List.append_nil, hr, copyInto]
+  have e4 : 0 ≤ 8 ∧ 8 ≤ (zeros 8 ++ r.2.flatten).length := by simp [zeros]
+  have e5 : r.1.length = 8 - 0 := by simp [r2]
+  have e6 : (zeros 8 ++ r.2.flatten).drop 8 = r.2.flatten := List.drop_left' (by simp [zeros])
+  rw [if_pos e4, if_pos e5, e6]
+  simp only [List.take_zero, List.nil_append, bind_ok, List.length_append, r2, hfl]
+  rw [Nat.add_comm]
+
+/-- normal form of `decrypt_in_place` on input of accepted length -/
+theorem kwDecrypt_eq (C : BlockCipher) (key c : Bytes) (h3 : c.length % 8 = 0) (h5 : 8 ≤ c.length) :
+    kwDecrypt C key c [] [] =
+      if (kwUnwrapPasses (C.dec key) (c.length / 8 - 1) 6 0 (c.take 8) (Cbc.chunks 8 (c.drop 8))).1 = kwIv
+      then .ok (kwUnwrapPasses (C.dec key) (c.length / 8 - 1) 6 0 (c.take 8) (Cbc.chunks 8 (c.drop 8))).2.flatten
+      else .err ⟨.Encryption, .default⟩ := by
+  unfold kwDecrypt
+  have h4 : ¬ c.length / 8 < 1 := by omega
+  have e5 : 0 ≤ 8 ∧ 8 ≤ c.length := ⟨by omega, h5⟩
+  have e6 : (c.take 8).length = 8 := by simp [List.length_take]; omega
+  have e7 : 8 * ((c.drop 8).length / 8) = (c.drop 8).length := by
+    rw [List.length_drop]; have := Nat.div_add_mod (c.length - 8) 8; omega
+  simp only [List.isEmpty_nil, Bool.not_true, Bool.false_eq_true, if_false, h3, ne_eq, not_true_eq_false, h4, sliceRange, e5, and_self,
+    if_true, bind_ok, List.drop_zero, tryInto8, e6, drainFront, e7, List.drop_length, List.append_nil]
+
+/-- a block function on lists, seen by the `ByteArray` specification -/
+def liftBA (f : Bytes → Bytes) : ByteArray → ByteArray := fun b => (f b.toList).toByteArray
+
+theorem liftBA_toList (f : Bytes → Bytes) (b : ByteArray) : (liftBA f b).toList = f b.toList := ba_toList_ofList _
+
+theorem defaultIV_toList : defaultIV.toList = kwIv := by
+  simp only [defaultIV, ba_toList_ofList, kwIv]
+
+/-- **`encrypt_in_place` of the model is RFC 3394 wrap** (`Crypto.KeyWrap.wrapWith`, the index form of §2.2.1, default
+    IV), for every lawful 128-bit block cipher, every key and every accepted input — the empty input and a single
+    64-bit block included -/
+theorem kwEncrypt_is_rfc3394 (C : BlockCipher) (hC : C.Lawful) (key p : Bytes) (hp : p.length % 8 = 0) :
+    kwEncrypt C key p [] [] = .ok ((wrapWith (liftBA (C.enc key)) defaultIV p.toByteArray).toList, p.length + 8) := by
+  rw [kwEncrypt_eq C hC key p hp,
+    wrapWith_refines (liftBA (C.enc key)) (C.enc key) (liftBA_toList _) (hC.enc_len key) defaultIV p.toByteArray
+      (by rw [ba_size, defaultIV_toList]; rfl)]
+  simp only [ba_size, ba_toList_ofList, defaultIV_toList]
+
+/-- **`decrypt_in_place` of the model is RFC 3394 unwrap** (`Crypto.KeyWrap.unwrapWith`, §2.2.2 with the integrity
+    check, default IV), for EVERY input: it returns the key data exactly when the specification does, and fails
+    otherwise — with the length error for a length that is not a multiple of 8, the generic one else. -/
+theorem kwDecrypt_is_rfc3394 (C : BlockCipher) (hC : C.Lawful) (key c : Bytes) :
+    kwDecrypt C key c [] [] =
+      match unwrapWith (liftBA (C.dec key)) defaultIV c.toByteArray with
+      | some p => .ok p.toList
+      | none => .err ⟨.Encryption, if c.length % 8 ≠ 0 then .kwLen else .default⟩ := by
+  have hr := unwrapWith_refines (liftBA (C.dec key)) (C.dec key) (liftBA_toList _) (hC.dec_len key) defaultIV c.toByteArray
+  simp only [ba_size, ba_toList_ofList, defaultIV_toList] at hr
+  by_cases h3 : c.length % 8 = 0
+  · by_cases h5 : 8 ≤ c.length
+    · have hg : ¬ (c.length % 8 ≠ 0 ∨ c.length < 8) := by omega
+      rw [kwDecrypt_eq C key c h3 h5]
+      simp only [hg, if_false] at hr
+      split at hr
+      · rename_i hiv
+        cases hu : unwrapWith (liftBA (C.dec key)) defaultIV c.toByteArray with
+        | none => rw [hu] at hr; simp at hr
+        | some p =>
+          rw [hu] at hr
+          simp only [Option.map_some, Option.some.injEq] at hr
+          simp only [hiv, if_true, hr]
+      · rename_i hiv
+        cases hu : unwrapWith (liftBA (C.dec key)) defaultIV c.toByteArray with
+        | some p => rw [hu] at hr; simp at hr
+        | none => simp [hiv, h3]
+    · have hg : c.length % 8 ≠ 0 ∨ c.length < 8 := by omega
+      simp only [hg, if_true] at hr
+      cases hu : unwrapWith (liftBA (C.dec key)) defaultIV c.toByteArray with
+      | some p => rw [hu] at hr; simp at hr
+      | none =>
+        have : c.length / 8 < 1 := by omega
+        simp [kwDecrypt, h3, this]
+  · have hg : c.length % 8 ≠ 0 ∨ c.length < 8 := .inl h3
+    simp only [hg, if_true] at hr
+    cases hu : unwrapWith (liftBA (C.dec key)) defaultIV c.toByteArray with
+    | some p => rw [hu] at hr; simp at hr
+    | none => simp [kwDecrypt, h3]
+
+
+/-! #### the converse round trip, under the additional law `enc (dec b) = b` -/
+
+theorem kw_step_inv' (enc dec : Bytes → Bytes) (hlen : ∀ b, b.length = 16 → (dec b).length = 16)
+    (hed : ∀ b, b.length = 16 → enc (dec b) = b) (t : Nat) (iv c : Bytes) (hiv : iv.length = 8) (hc : c.length = 8) :
+    kwWrapStep enc t (kwUnwrapStep dec t iv c).1 (kwUnwrapStep dec t iv c).2 = (iv, c)
+    ∧ (kwUnwrapStep dec t iv c).1.length = 8 ∧ (kwUnwrapStep dec t iv c).2.length = 8 := by
+  have hx : (Cbc.xor iv (Bytes.be64 t)).length = 8 := by rw [xor_length, hiv, be64_length]; rfl
+  have hb : (Cbc.xor iv (Bytes.be64 t) ++ c).length = 16 := by simp [hx, hc]
+  have hdl := hlen _ hb
+  refine ⟨?_, ?_, ?_⟩
+  · simp only [kwUnwrapStep, kwWrapStep]
+    rw [List.take_append_drop, hed _ hb, List.take_left' hx, List.drop_left' hx,
+      xor_xor_cancel _ _ (by rw [hiv, be64_length]; exact Nat.le_refl _)]
+  · simp only [kwUnwrapStep, List.length_take, hdl]; rfl
+  · simp only [kwUnwrapStep, List.length_drop, hdl]
+
+theorem kw_pass_inv' (enc dec : Bytes → Bytes) (hlen : ∀ b, b.length = 16 → (dec b).length = 16)
+    (hed : ∀ b, b.length = 16 → enc (dec b) = b) (base : Nat) :
+    ∀ (cs : List Bytes) (iv : Bytes) (i : Nat), iv.length = 8 → (∀ c ∈ cs, c.length = 8) →
+      kwWrapPass enc base (kwUnwrapPass dec base iv cs i).1 (kwUnwrapPass dec base iv cs i).2 i = (iv, cs)
+      ∧ (kwUnwrapPass dec base iv cs i).1.length = 8 ∧ (∀ c ∈ (kwUnwrapPass dec base iv cs i).2, c.length = 8)
+  | [], iv, i, hiv, _ => by simp [kwWrapPass, kwUnwrapPass, hiv]
+  | c :: cs, iv, i, hiv, h => by
+    have hc : c.length = 8 := h c (by simp)
+    obtain ⟨r1, r2, r3⟩ := kw_pass_inv' enc dec hlen hed base cs iv (i + 1) hiv (fun d hd => h d (by simp [hd]))
+    obtain ⟨s1, s2, s3⟩ := kw_step_inv' enc dec hlen hed (base + i + 1) (kwUnwrapPass dec base iv cs (i + 1)).1 c r2 hc
+    refine ⟨?_, ?_, ?_⟩
+    · simp only [kwWrapPass, kwUnwrapPass, s1, r1]
+    · simpa only [kwUnwrapPass] using s2
+    · intro d hd
+      simp only [kwUnwrapPass, List.mem_cons] at hd
+      cases hd with
+      | inl e => rw [e]; exact s3
+      | inr e => exact r3 d e
+
+theorem kw_passes_inv' (enc dec : Bytes → Bytes) (hlen : ∀ b, b.length = 16 → (dec b).length = 16)
+    (hed : ∀ b, b.length = 16 → enc (dec b) = b) (blocks : Nat) :
+    ∀ (k j : Nat) (iv : Bytes) (cs : List Bytes), iv.length = 8 → (∀ c ∈ cs, c.length = 8) →
+      kwWrapPasses enc blocks k j (kwUnwrapPasses dec blocks k j iv cs).1 (kwUnwrapPasses dec blocks k j iv cs).2 = (iv, cs)
+      ∧ (kwUnwrapPasses dec blocks k j iv cs).1.length = 8 ∧ (∀ c ∈ (kwUnwrapPasses dec blocks k j iv cs).2, c.length = 8)
+  | 0, _, iv, cs, hiv, h => by simp [kwWrapPasses, kwUnwrapPasses, hiv]; exact h
+  | k + 1, j, iv, cs, hiv, h => by
+    obtain ⟨r1, r2, r3⟩ := kw_passes_inv' enc dec hlen hed blocks k (j + 1) iv cs hiv h
+    obtain ⟨p1, p2, p3⟩ := kw_pass_inv' enc dec hlen hed (blocks * j) _ _ 0 r2 r3
+    refine ⟨?_, ?_, ?_⟩
+    · simp only [kwWrapPasses, kwUnwrapPasses, p1, r1]
+    · simpa only [kwUnwrapPasses] using p2
+    · simpa only [kwUnwrapPasses] using p3
+
+/-- The converse round trip: whatever `decrypt_in_place` accepts is the wrap of what it returns — PROVIDED the block
+    cipher's encryption also inverts its decryption (`hed`; this law is NOT part of `BlockCipher.Lawful`, it holds
+    for a permutation such as AES).  Hence a wrapped key has exactly one accepted encoding per key. -/
+theorem kw_wrap_unwrap (C : BlockCipher) (hC : C.Lawful) (hed : ∀ k b, b.length = 16 → C.enc k (C.dec k b) = b)
+    (key c p : Bytes) (h : kwDecrypt C key c [] [] = .ok p) : kwEncrypt C key p [] [] = .ok (c, c.length) := by
+  obtain ⟨hiv, _, _, h3, h5⟩ := kw_checks_iv C key c [] [] p h
+  rw [kwDecrypt_eq C key c h3 h5, if_pos hiv] at h
+  simp only [Res.ok.injEq] at h
+  have hn : c.length / 8 - 1 = (c.drop 8).length / 8 := by rw [List.length_drop]; omega
+  have hmod : (c.drop 8).length % 8 = 0 := by rw [List.length_drop]; omega
+  obtain ⟨r1, r2, r3⟩ := kw_passes_inv' (C.enc key) (C.dec key) (hC.dec_len key) (hed key) (c.length / 8 - 1) 6 0
+    (c.take 8) (Cbc.chunks 8 (c.drop 8)) (by rw [List.length_take]; omega) (chunks_all_length 8 _)
+  generalize hr : kwUnwrapPasses (C.dec key) (c.length / 8 - 1) 6 0 (c.take 8) (Cbc.chunks 8 (c.drop 8)) = r at h hiv r1 r2 r3
+  have hl : r.2.length = c.length / 8 - 1 := by
+    rw [← hr, kwUnwrapPasses_length, chunks_length, hn]
+  have hpl : p.length = 8 * (c.length / 8 - 1) := by rw [← h, flatten_length_of_all 8 _ r3, hl]
+  have hp : p.length % 8 = 0 := by rw [hpl]; exact Nat.mul_mod_right _ _
+  have hpn : p.length / 8 = c.length / 8 - 1 := by rw [hpl]; exact Nat.mul_div_cancel_left _ (by decide)
+  rw [kwEncrypt_eq C hC key p hp, hpn, ← h, chunks_flatten 8 (by decide) _ r3, ← hiv, r1]
+  simp only [flatten_chunks 8 _ hmod, List.take_append_drop, Res.ok.injEq, Prod.mk.injEq, true_and]
+  rw [flatten_length_of_all 8 _ r3, hl]; omega
+
+theorem ba_ofList_toList (b : ByteArray) : b.toList.toByteArray = b := by
+  ext1; simp [ba_toList]
+
+/-- every `ByteArray` block function is the lift of a list function: the refinement applies to ANY `ciph` that maps
+    16-byte blocks to 16-byte blocks — in particular to `Aes.cipher w` of the executable AES specification -/
+theorem wrapWith_refines_any (ciph : ByteArray → ByteArray) (hlen : ∀ b, b.size = 16 → (ciph b).size = 16)
+    (iv plain : ByteArray) (hiv : iv.size = 8) :
+    (wrapWith ciph iv plain).toList =
+      (kwWrapPasses (fun l => (ciph l.toByteArray).toList) (plain.size / 8) 6 0 iv.toList (Cbc.chunks 8 plain.toList)).1 ++
+      (kwWrapPasses (fun l => (ciph l.toByteArray).toList) (plain.size / 8) 6 0 iv.toList (Cbc.chunks 8 plain.toList)).2.flatten :=
+  wrapWith_refines ciph _ (fun b => by simp only [ba_ofList_toList]) (fun b hb => by
+    rw [← ba_size]; exact hlen _ (by rw [ba_size, ba_toList_ofList]; exact hb)) iv plain hiv
+
+theorem unwrapWith_refines_any (inv : ByteArray → ByteArray) (hlen : ∀ b, b.size = 16 → (inv b).size = 16)
+    (iv c : ByteArray) :
+    (unwrapWith inv iv c).map (·.toList) =
+      if c.size % 8 ≠ 0 ∨ c.size < 8 then none
+      else if (kwUnwrapPasses (fun l => (inv l.toByteArray).toList) (c.size / 8 - 1) 6 0 (c.toList.take 8)
+          (Cbc.chunks 8 (c.toList.drop 8))).1 = iv.toList
+        then some (kwUnwrapPasses (fun l => (inv l.toByteArray).toList) (c.size / 8 - 1) 6 0 (c.toList.take 8)
+          (Cbc.chunks 8 (c.toList.drop 8))).2.flatten
+        else none :=
+  unwrapWith_refines inv _ (fun b => by simp only [ba_ofList_toList]) (fun b hb => by
+    rw [← ba_size]; exact hlen _ (by rw [ba_size, ba_toList_ofList]; exact hb)) iv c
+
+/-- the additional law of `kw_wrap_unwrap` is satisfiable together with `BlockCipher.Lawful` -/
+theorem toyCipher_enc_dec (k b : Bytes) : toyCipher.enc k (toyCipher.dec k b) = b := xorByte_xorByte _ _
+
+end KeyWrapRefinement
 
 end Askar.Aead.Lemmas
